@@ -173,6 +173,7 @@ func runC14(c *Ctx, r *Report) {
 	c14round2(c, r)
 	c14r8(c, r)
 	c14r9(c, r)
+	c14r10(c, r)
 	c20r11(c, r) // no preview child survives: the watcher takes a kill request also during the grace period
 }
 
